@@ -30,7 +30,7 @@ ASSUMPTIONS = [
     "early stop: fewer rows than load steps (Newton) or a last arc-length parameter strictly inside the requested "
     "span (Riks) requires a recorded warning",
 ]
-CASES = {"quick": 36, "thorough": 600}
+CASES = {"quick": 48, "thorough": 600}
 SHARDS = {"quick": 12, "thorough": 16}
 TECHNIQUE = "generated static problems; validity predicate (equilibrium residual recomputed), metamorphic relation (rigid placement of the whole problem), early-stop announcement"
 LEVEL_TEXT = (
@@ -42,7 +42,7 @@ LEVEL_NOTE = "trusted: System evaluation methods (C04-C11, C14)"
 
 @st.composite
 def _case(draw):
-    kind = draw(st.sampled_from(["cantilever", "cantilever", "cantilever", "springs"]))
+    kind = draw(st.sampled_from(["cantilever", "cantilever", "springs", "springs"]))
     if kind == "cantilever":
         rs = draw(rodbuild.rod_spec(max_nel=4))
         rs["L"] = draw(gen.f(1.0, 2.5))
@@ -63,11 +63,11 @@ def _case(draw):
                 "psi": draw(gen.rotvec(min_exp=-1, near_max=False)) if draw(st.integers(0, 2)) else
                        (np.array(draw(gen.unit_vec3())) * draw(gen.f(2.4, 3.1))).tolist(),
                 "b": [draw(gen.f(-2, 2)) for _ in range(3)]}
-    solver = draw(st.sampled_from(["Newton", "Riks", "Riks"]))
+    solver = draw(st.sampled_from(["Newton", "Newton", "Riks"]))
     return {"kind": kind, "solver": solver, "nsteps": draw(st.integers(1, 8)),
             "preload": draw(st.sampled_from([0.0, 0.3, 0.6])) if solver == "Newton" else 0.0,
             # the model carries an initial velocity (it is also used for dynamics); statics must ignore it
-            "u0": [draw(gen.f(-3, 3)) for _ in range(6)] if draw(st.booleans()) else None,
+            "u0": [draw(gen.f(-3, 3)) for _ in range(6)] if draw(st.integers(0, 2)) else None,
             "k": [draw(gen.f(5, 40)) for _ in range(3)], "F": [draw(gen.f(-3, 3)) for _ in range(3)],
             "la_arc0": draw(gen.f(0.01, 0.2)), "span1": draw(gen.f(0.5, 2.0)), "max_load_steps": draw(st.integers(1, 30))}
 
